@@ -25,6 +25,10 @@ WINDOWS = {
     "sparse_years": ["2009-12-31", "2010-01-04", "2010-01-05", "2010-03-31", "2010-04-01", "2011-01-03", "2011-12-30", "2013-01-02"],
     # plain mid-month days
     "plain_week": ["2021-06-14", "2021-06-15", "2021-06-17", "2021-06-18", "2021-06-21", "2021-06-22", "2021-06-23", "2021-06-28"],
+    # long histories: business days of the winter 1968/69 (before the Unix epoch)
+    "pre_epoch": ["1968-12-27", "1968-12-30", "1968-12-31", "1969-01-01", "1969-01-02", "1969-01-06", "1969-01-07", "1969-01-13"],
+    # daily bars stamped at local midnight in a zone ahead of UTC (the calendar is the data's own)
+    "tokyo_midnight": ["2020-01-30 00:00+09:00", "2020-01-31 00:00+09:00", "2020-02-01 00:00+09:00", "2020-02-03 00:00+09:00", "2020-03-31 00:00+09:00", "2020-04-01 00:00+09:00", "2020-12-31 00:00+09:00", "2021-01-01 00:00+09:00"],
     # hourly bars: overnight gap below 24h, weekend, month end
     "hourly": ["2021-04-29 09:30", "2021-04-29 15:30", "2021-04-30 09:30", "2021-04-30 15:30", "2021-05-03 09:30", "2021-05-03 10:30", "2021-05-04 09:30", "2021-05-04 15:30"],
 }
